@@ -150,8 +150,20 @@ func OracleC09(tr *Trace) Verdict {
 			if liveAtCall != nil && liveAtCall.Ver.Actor == in.ID && Contains(liveAtCall.Ver.Value, in.ID, a.TokenAtCall) && !p.instFaulted(a.Inst) {
 				v.Classes = append(v.Classes, "deletekey-by-owner")
 				if liveAtRet != nil && liveAtRet.Ver.Actor == in.ID {
-					v.Viols = append(v.Viols, Viol{At: a.RetT, Sig: "C09 deletekey-record-still-live-at-return",
-						Msg: fmt.Sprintf("%s owned the record when StopWithContext{DeleteKey} was called at %v; at its return (%v) its version %s is still live", who, a.CallT, a.RetT, fmtVer(liveAtRet.Ver))})
+					sig, how := "C09 deletekey-record-still-live-at-return", ""
+					// a distinct case (recorded as a known finding): the record the instance owned WAS deleted, but
+					// a Create of an overlapping acquisition round of the same instance, in flight since before the
+					// stop call, reached the store after the delete and wrote a new record that nobody refreshes
+					if liveAtRet.Op != nil && liveAtRet.Op.Kind == OpCreate && liveAtRet.Op.Obj == a.Obj && liveAtRet.Op.IssueSeq < a.CallSeq && liveAtRet.Ver != liveAtCall.Ver {
+						for _, d := range tr.Ops {
+							if d.Obj == a.Obj && d.Kind == OpDelete && d.Applied && d.ApplySeq > a.CallSeq && d.ApplySeq < liveAtRet.Op.ApplySeq {
+								sig = "C09 deletekey-record-recreated-by-own-in-flight-acquisition"
+								how = fmt.Sprintf(" (its delete was applied at %v; the Create issued at %v, before the stop call, was applied at %v)", d.ApplyT, liveAtRet.Op.IssueT, liveAtRet.Op.ApplyT)
+							}
+						}
+					}
+					v.Viols = append(v.Viols, Viol{At: a.RetT, Sig: sig,
+						Msg: fmt.Sprintf("%s owned the record when StopWithContext{DeleteKey} was called at %v; at its return (%v) its version %s is still live%s", who, a.CallT, a.RetT, fmtVer(liveAtRet.Ver), how)})
 				}
 			}
 		}
